@@ -515,7 +515,8 @@ func (p *parameterBuilder) buildFromStruct(decl *entityDecl, tpe *types.Struct, 
 	for _, k := range sequence {
 		p := seen[k]
 		for i, v := range op.Parameters {
-			if v.Name == k {
+			// a parameter is identified by its name and location: ?id= does not replace /{id}
+			if v.Name == k && v.In == p.In {
 				op.Parameters = append(op.Parameters[:i], op.Parameters[i+1:]...)
 				break
 			}
